@@ -41,6 +41,8 @@ type exploreCfg struct {
 	empty   bool    // the store starts empty (no header 1): the first batch initialises it at an arbitrary height
 	wipe    bool    // c12: one whole-store DeleteRange at a quiet moment, readers stay parked across it
 	stopMid bool    // c06: Stop is called somewhere in the middle; the store is reopened afterwards
+	delFail int     // c17: >0: an OnDelete handler fails once, at this height; the deleter then retries from Tail()
+	delPar  bool    // c17: the deletion takes the parallel path (threshold lowered to 2 headers)
 }
 
 func genExplore(rnd *rand.Rand, mode string) exploreCfg {
@@ -100,6 +102,10 @@ func genExplore(rnd *rand.Rand, mode string) exploreCfg {
 		c.syncs = rnd.Intn(2)
 		if withDeleter {
 			c.delTo = 2 + rnd.Intn(2)
+			if rnd.Intn(3) == 0 {
+				c.delFail = 1 + rnd.Intn(c.delTo-1)
+			}
+			c.delPar = rnd.Intn(3) == 0
 		}
 		// readers of low heights: they return at once, but they read through the caches while the deleter works
 		for i := rnd.Intn(3); i > 0; i-- {
@@ -150,6 +156,20 @@ func exploreOnce(t *testing.T, id int, rnd *rand.Rand, mode string) (rec0 Record
 			fatal = err.Error()
 			return
 		}
+		handlerFailed := false
+		if c.delFail > 0 {
+			st.OnDelete(func(_ context.Context, h uint64) error {
+				if int(h) == c.delFail && !handlerFailed {
+					handlerFailed = true
+					return errors.New("scripted: handler failed")
+				}
+				return nil
+			})
+		}
+		if c.delPar {
+			old := store.VerifSetDeleteParallelThreshold(2)
+			defer store.VerifSetDeleteParallelThreshold(old)
+		}
 		if !c.empty {
 			_ = st.Append(bg, chain.At(1))
 			_ = st.Sync(bg)
@@ -188,6 +208,7 @@ func exploreOnce(t *testing.T, id int, rnd *rand.Rand, mode string) (rec0 Record
 		stopCalled, stopDone := false, false
 		var returnedBeforeStop []int
 		delOK := false
+		tailBad := 0
 		observe := func() {
 			x := context.WithValue(bg, procKey{}, "X")
 			hd, _ := st.Head(x)
@@ -450,8 +471,29 @@ func exploreOnce(t *testing.T, id int, rnd *rand.Rand, mode string) (rec0 Record
 					victimSteps, hotHeight = 1000, 1+rnd.Intn(c.delTo-1)
 				}
 				go func() {
+					dctx := context.WithValue(bg, procKey{}, "D")
+					x := context.WithValue(bg, procKey{}, "X")
 					// may legitimately fail (range above the head when headers are missing): not judged
-					if err := st.DeleteRange(context.WithValue(bg, procKey{}, "D"), 1, uint64(c.delTo)); err == nil {
+					err := st.DeleteRange(dctx, 1, uint64(c.delTo))
+					for k := 0; err != nil && c.delFail > 0 && k < 3; k++ {
+						// the failed attempt must leave a tail that is stored (everything below it is gone, it is not), then
+						// the deletion is retried from there
+						tl, terr := st.Tail(x)
+						if terr != nil {
+							break
+						}
+						if _, gerr := st.Get(x, tl.Hash()); gerr != nil {
+							mu.Lock()
+							tailBad++
+							mu.Unlock()
+						}
+						if tl.Height() >= uint64(c.delTo) {
+							err = nil
+							break
+						}
+						err = st.DeleteRange(dctx, tl.Height(), uint64(c.delTo))
+					}
+					if err == nil {
 						mu.Lock()
 						delOK = true
 						mu.Unlock()
@@ -625,6 +667,7 @@ func exploreOnce(t *testing.T, id int, rnd *rand.Rand, mode string) (rec0 Record
 			rec0.Kind = "c17free"
 			mu.Lock()
 			rec0.SyncedBad = syncedBad
+			rec0.TailBad = tailBad
 			rec0.TailWant = 1
 			if delOK {
 				rec0.TailWant = c.delTo
@@ -671,7 +714,7 @@ func exploreOnce(t *testing.T, id int, rnd *rand.Rand, mode string) (rec0 Record
 		_ = st.Stop(bg)
 		synctest.Wait()
 	})
-	rec0.Cfg = fmt.Sprintf("n=%d bsz=%d wants=%v script=%v syncs=%d delTo=%d late=%v empty=%v wipe=%v stopMid=%v preempt=%v", c.n, c.bsz, c.wants, c.script, c.syncs, c.delTo, c.late, c.empty, c.wipe, c.stopMid, id%2 == 1)
+	rec0.Cfg = fmt.Sprintf("n=%d bsz=%d wants=%v script=%v syncs=%d delTo=%d delFail=%d delPar=%v late=%v empty=%v wipe=%v stopMid=%v preempt=%v", c.n, c.bsz, c.wants, c.script, c.syncs, c.delTo, c.delFail, c.delPar, c.late, c.empty, c.wipe, c.stopMid, id%2 == 1)
 	return rec0, fatal
 }
 
